@@ -10,8 +10,10 @@ import (
 )
 
 const hexU = "0123456789ABCDEF"
+const hexL = "0123456789abcdef"
 
-func pct(b byte) string { return string([]byte{'%', hexU[b>>4], hexU[b&15]}) }
+func pct(b byte) string  { return string([]byte{'%', hexU[b>>4], hexU[b&15]}) }
+func pctL(b byte) string { return string([]byte{'%', hexL[b>>4], hexL[b&15]}) }
 
 func isAlnum(b byte) bool {
 	return b >= 'a' && b <= 'z' || b >= 'A' && b <= 'Z' || b >= '0' && b <= '9'
@@ -24,7 +26,7 @@ func isHex(b byte) bool {
 // urlencoded component encoders -------------------------------------------------
 //
 //	pct    : every byte outside [A-Za-z0-9-_.~] becomes %XX           (RFC 3986 strict)
-//	plus   : like pct but space becomes '+'                            (HTML form encoding)
+//	plus   : like pct but space becomes '+', hex digits in lower case  (HTML form encoding)
 //	sloppy : only what a single lenient decode needs: '&' '=' '+' '#' space, controls,
 //	         non-ASCII, and a '%' that is followed by two hex digits in the output;
 //	         a '%' that cannot be read as an escape is left raw (as sloppy clients do)
@@ -38,6 +40,8 @@ func encPct(s string, plus bool) string {
 			sb.WriteByte(b)
 		case b == ' ' && plus:
 			sb.WriteByte('+')
+		case plus:
+			sb.WriteString(pctL(b)) // the form style writes lower-case hex digits
 		default:
 			sb.WriteString(pct(b))
 		}
@@ -277,6 +281,10 @@ func jsonString(style, s string) string {
 // Kind "l" as {"Name":["Value"]}, Kind "r" as {"Name":Value} with Value a JSON literal.
 func encJSON(style string, items []Item) string {
 	var sb strings.Builder
+	if style == "toparr" {
+		// the object is the only element of a top-level array
+		return "[" + encJSON("min", items) + "]"
+	}
 	sb.WriteByte('{')
 	for i, it := range items {
 		if i > 0 {
